@@ -29,7 +29,7 @@ TEXT = {
             "deterministic simulation: stored-byte corruption and cooperative panic injection, process-level abnormal-termination monitor", "s4 C16"),
     "C19": ("exploration",
             "Seeded exploration: the driver draws an edit script over a small tree and renders the unified diff itself (0-3 context lines, several hunks, first/last-line additions, pure deletions, new/deleted/renamed files, omitted counts, git headers, section text with `+N` look-alikes, timestamps, missing final newline), so the post-image ranges are known by construction; the real rustfmt-format-diff reads it through a stdin pipe delivered in two different chunkings (short reads, EINTR) and spawns a recording stub whose status / fatal signal / absence is scripted. Oracles: recorded file arguments and --file-lines ranges equal the constructed ones, no child for an empty result, exit status follows the child, chunking never matters.",
-            "Trusts the driver's own diff rendering as ground truth; paths have at least N components and no spaces.",
+            "Trusts the driver's own diff rendering as ground truth; paths have no spaces.",
             "deterministic simulation: constructed-ground-truth workload over a faulty stdin stream and a scripted child, real binary", "s4 C19"),
     "C18": ("exploration",
             "Seeded exploration over abstract Cargo workspaces (1-4 members, virtual/rooted, seven target kinds, package and per-target editions, path dependencies inside/outside incl. transitive, shared source file, excluded member) x selections x working directories x pass-through options, with the real cargo-fmt, the real `cargo metadata` and a recording stub as $RUSTFMT whose per-invocation exit status / fatal signal is scripted, plus spawn failures (ENOENT, injected EACCES) and a failing cargo. Oracles over the recorded argument vectors and exit status against an independent full `cargo metadata` ground truth; an end-to-end lane runs the real rustfmt.",
@@ -61,6 +61,19 @@ TEXT = {
             "deterministic simulation: LD_PRELOAD fault/crash enumeration over the real binary", "s4 C20"),
 }
 
+# lanes added after the first registration (DESIGN.md s9 lists what forced each of them)
+LATER = {
+    "C05": " Later lanes: symlinked / hard-linked module files, module files shared by several roots (through #[path] and by a twin root in the same directory), chains of 33-40 nested out-of-line modules, legal short reads / EINTR on every run, write faults (torn write, errno) in plain files mode.",
+    "C06": " Later lanes: several inputs per command line, nested overlapping roots, symlinked module file, make_backup from the project file, errno on the k-th mutating call and on stdout ('reported or harmless'), --check combined with --config emit_mode, opted-out sources on stdin (empty report demanded), and 'a file that files mode rewrites is not reported as clean' for the json / checkstyle / modified-lines reports.",
+    "C13": " Later lanes: rustc --emit=dep-info cross-check of the model, adversarial decoys, symlinked module files and directories, a stem-named non-directory next to the root, sibling files sharing a child name (fallback vs nested), files that opt out and are named twice, nested cfg_if!/cfg_match!, an ignored file declared through a `..` spelling, a module missing below an inline module.",
+    "C14": " Later lanes: legal short reads on every file read, unreadable candidates (errno on stat/open), symlinked configs, both per-user fallbacks, HOME inside the probed chain, absolute spellings with a `..` detour or through a symlinked directory, list-valued options, the library API (override_value and typed setters) through a session driver, lane E (emitter options from the discovered file vs --config-path).",
+    "C15": " Later lanes: one library API session replaying the orders, overlapping inputs, absolute symlink spellings, every module file formatted inside its tree and alone, I/O error while an earlier input is written, stderr compared across hash seeds, several warning files per tree, --file-lines under several hash seeds, CRLF inputs with the oracle 'multi-input stdout is the single-input outputs in command-line order'.",
+    "C16": " Later lanes: arbitrary re-layout, Unicode / lexer white space substitution, use-group grammar, control options (--color, TERM, RUSTFMT_LOG, -v/-q, --file-lines), lane D (I/O error while emitting), lane M (several inputs with unloadable per-directory configs), lane Y (module cycles), lane T (tiny cfg_if!/cfg_match! files, where a missing result is a hang), lane S (seeded constructs on the narrowest usable pages).",
+    "C18": " Later lanes: dev / build path dependencies, a non-member dependency inside the workspace directory, a same-named second path dependency, the workspace's own manifest and `..` / symlink / relative spellings as --manifest-path, failing canonicalisation, cwd in a member's subdirectory.",
+    "C19": " Later lanes: read error / invalid UTF-8 part-way through stdin, E2BIG on spawn, unwritable stdout (EPIPE / ENOSPC) combined with every child kind, absolute post-image paths, paths shorter than -p, ungrouped alternation filters, git-quoted non-ASCII paths.",
+    "C20": " Later lanes: CRLF / BOM sources, leftovers of earlier runs, format-edit-format history, symlinked and hard-linked files, stem collisions, a file reached again by a second input (twin root, module as own input, two-pass texts), files whose own name ends in .tmp / .bk.",
+}
+
 UNDER_CONSTRUCTION = "claimed in DESIGN.md; its simulated check is not registered yet in this revision (under construction)"
 
 
@@ -70,6 +83,7 @@ def main():
     for pid in ("C05", "C06", "C13", "C14", "C15", "C16", "C18", "C19", "C20"):
         if pid in ENABLED and pid in TEXT:
             cat, text, note, tech, ref = TEXT[pid]
+            text += LATER.get(pid, "")
             checks.append({
                 "property_id": pid,
                 "quick_cmd": "./check %s --tier quick" % pid,
